@@ -115,6 +115,45 @@ impl<'a> Elf<'a> {
         Some(&tail[..end])
     }
 
+    /// virtual address that the first byte of a loaded image corresponds to
+    pub fn image_base(&self) -> u64 {
+        self.phs.iter().filter(|p| p.ty == 1).map(|p| p.vaddr & !0xfff).min().unwrap_or(0)
+    }
+
+    /// Build id out of a memory image (`self.b` holds the image from its first byte: contents sit at
+    /// their virtual address minus the image base). Only what a loaded image offers: the note in a
+    /// PT_NOTE segment, else a note / text section if the section table happens to be loaded.
+    pub fn build_id_mem(&self) -> Option<Vec<u8>> {
+        let base = self.image_base();
+        for p in &self.phs {
+            if p.ty == 4 {
+                if let Some(id) = notes_build_id(self.b, p.vaddr.wrapping_sub(base) as usize, p.filesz as usize, p.align as usize) {
+                    return Some(id);
+                }
+            }
+        }
+        for s in &self.shs {
+            if self.sec_name(s) == Some(b".note.gnu.build-id") {
+                if let Some(id) = notes_build_id(self.b, s.addr.wrapping_sub(base) as usize, s.size as usize, s.align as usize) {
+                    return Some(id);
+                }
+            }
+        }
+        for s in &self.shs {
+            if s.ty == 1 && s.flags & 2 != 0 && s.flags & 4 != 0 {
+                let len = (s.size as usize).min(4096);
+                let o = s.addr.wrapping_sub(base) as usize;
+                let text = self.b.get(o..o.checked_add(len)?)?;
+                let mut out = vec![0u8; 16];
+                for (i, c) in text.iter().enumerate() {
+                    out[i % 16] ^= *c;
+                }
+                return Some(out);
+            }
+        }
+        None
+    }
+
     /// GNU build-id note, else XOR-fold of the first page of the first executable section
     pub fn build_id(&self) -> Option<Vec<u8>> {
         for p in &self.phs {
@@ -155,7 +194,9 @@ impl<'a> Elf<'a> {
     /// base; d_ptr entries may have been relocated to absolute addresses by the loader)
     pub fn soname_mem(&self, load_base: u64) -> Option<String> {
         let dynp = self.phs.iter().find(|p| p.ty == 2)?;
-        let d = self.b.get(dynp.vaddr as usize..(dynp.vaddr + dynp.filesz) as usize)?;
+        let ib = self.image_base();
+        let dv = dynp.vaddr.wrapping_sub(ib);
+        let d = self.b.get(dv as usize..(dv + dynp.filesz) as usize)?;
         let mut strtab = None;
         let mut strsz = None;
         let mut so = None;
@@ -175,6 +216,8 @@ impl<'a> Elf<'a> {
         let (mut strtab, strsz, so) = (strtab?, strsz?, so?);
         if strtab >= load_base {
             strtab -= load_base;
+        } else {
+            strtab = strtab.wrapping_sub(ib);
         }
         if so >= strsz {
             return None;
